@@ -88,6 +88,7 @@ type c14Case struct {
 	Steps  int   `json:"body_steps"`
 	Slow   int   `json:"slow_closer"` // -1 none
 	Wired  bool  `json:"wired_by_real_start,omitempty"`
+	Zero   int   `json:"zero_size_closers,omitempty"` // mask: stateless closers of field-less types (one shared address)
 	Bound  int   `json:"preemption_bound"`
 	Script []int `json:"schedule,omitempty"`
 }
@@ -125,6 +126,16 @@ func c14Gen(c *core.Ctx) func(yield func(c14Case) bool) {
 				return
 			}
 		}
+		for z := 3; z < 8; z++ { // two or three stateless closers next to 0-1 ordinary ones
+			if z == 4 {
+				continue
+			}
+			for n := 0; n <= 1; n++ {
+				if !yield(c14Case{N: n, Fail: 0, Steps: 0, Slow: -1, Bound: 2, Zero: z}) {
+					return
+				}
+			}
+		}
 		for n := 4; n <= 6; n++ {
 			for _, fail := range []int{0, 1<<n - 1, 0x2a & (1<<n - 1)} {
 				for _, slow := range []int{-1, n - 1} {
@@ -152,6 +163,13 @@ func c14Run(c *core.Ctx) {
 		for _, k := range closers {
 			k.all = closers
 		}
+		zwant := 0
+		for i, z := range []definition.CloserComponent{&scen.Z1{}, &scen.Z2{}, &scen.Z3{}} {
+			if cs.Zero>>i&1 == 1 {
+				comps = append(comps, z)
+				zwant++
+			}
+		}
 		a := &app.App{CloserComponents: comps}
 		if cs.Wired {
 			// the closers are found and wired by a real (free-running) start
@@ -167,11 +185,14 @@ func c14Run(c *core.Ctx) {
 		}
 		var calls []int
 		var finished []bool
+		var zlog []string
 		body := func() {
 			syslog.ResetForVerif(syslog.LvTrace) // every execution starts with cold logger state
 			c14Reset(closers)
+			c14ZReset()
 			a.Close()
 			calls, finished = c14Snapshot(closers)
+			zlog = c14ZSnapshot()
 		}
 		oracle := func(e *scen.SchedExec) {
 			c.S.Evaluations++
@@ -201,6 +222,22 @@ func c14Run(c *core.Ctx) {
 					c.Outcome("returned-early")
 					c.Report(key("early"), "returned-early", fmt.Sprintf("%d closers (failing mask %b, slow %d), schedule %v: Close returned before closer %d had finished", cs.N, cs.Fail, cs.Slow, e.Script, i), cc)
 					return
+				}
+			}
+			if cs.Zero != 0 {
+				for i := 0; i < 3; i++ {
+					cnt := 0
+					for _, e := range zlog {
+						if e == fmt.Sprintf("close:Z%d", i+1) {
+							cnt++
+						}
+					}
+					want := cs.Zero >> i & 1
+					if cnt != want {
+						c.Outcome("not-once")
+						c.Report(key("zero"), "not-exactly-once", fmt.Sprintf("stateless closer Z%d (field-less type; mask %b of such closers registered): invoked %d times when Close returned, want %d; log %v", i+1, cs.Zero, cnt, want, zlog), cc)
+						return
+					}
 				}
 			}
 			if e.Raced {
@@ -234,3 +271,9 @@ type c14Named struct {
 }
 
 func (n *c14Named) Naming() string { return n.name }
+
+//go:norace
+func c14ZReset() { scen.ZLog = nil }
+
+//go:norace
+func c14ZSnapshot() []string { return append([]string{}, scen.ZLog...) }
